@@ -371,12 +371,15 @@ class _parser:
         params = {}
         for attr in known:
             params.update({attr: getattr(self, attr)})
+        unset_numbers = [token for token, type, _ in self.unset_tokens if type == 0]
         for attr in unknown:
-            for token, type, _ in self.unset_tokens:
-                if type == 0:
-                    params.update({attr: int(token)})
-                    setattr(self, "_token_%s" % attr, token)
-                    setattr(self, attr, int(token))
+            if not unset_numbers:
+                break
+            # a number that no directive accepted fills one unresolved part, not all of them
+            token = unset_numbers.pop()
+            params.update({attr: int(token)})
+            setattr(self, "_token_%s" % attr, token)
+            setattr(self, attr, int(token))
 
     def _get_period(self):
         if self.settings.RETURN_TIME_AS_PERIOD:
